@@ -3,8 +3,10 @@ from props import common, generic, tree_common as tc
 
 
 def run(rep):
+    common.load_contracts()
+    from contracts.grouping import DELIMITER_CASES
     return generic.run_generic(
-        rep, [(tc.GT, 'new group'), (tc.GT, 'extend flag')] + tc.MATCHER_FUNCS + tc.JOINER_FUNCS[:1],
+        rep, [(tc.GT, 'new group'), (tc.GT, 'extend flag')] + tc.MATCHER_FUNCS + tc.JOINER_FUNCS[:1] + list(DELIMITER_CASES),
         structural=[tc.pass_order, tc.grouping_frame, tc.identity_side_conditions],
         assumptions=['group_tokens(cls, open_idx, close_idx) creates ONE group that owns exactly tokens[open_idx..close_idx] '
                      '(proved): its first child is the opener and its last child the closer whenever the driver passes '
@@ -15,7 +17,10 @@ def run(rep):
                      'sub-group of another class is descended into, no exception (proved).  That the popped position holds '
                      'the matching OPENER token (stack entries <-> tokens) is not expressed by the contract: that half, and '
                      'the comparison with an independent stack matcher, is the bounded stand-in',
-                     'later passes never absorb a delimiter: bounded stand-in (+ the two repaired call sites)'],
+                     'later passes never absorb a delimiter: _group groups no range that contains an element for which '
+                     '_is_delimiter holds (proved, interval summary over the real guard), and _is_delimiter is verified per '
+                     'class against the property\'s notion of a delimiter: the first child, and every leaf that matches the '
+                     'class\'s closing pattern wherever it stands (comments may be attached behind it); never a group child'],
         trusted=['ownership-based local invariants (methodology)'],
         extra_functions=['sqlparse.engine.grouping._group_matching', 'sqlparse.engine.grouping._group'])
 
